@@ -274,6 +274,19 @@ func validateJWT(ih bittorrent.InfoHash, jwtBytes []byte, cfgIss, cfgAud string,
 		return errors.New("signed by unknown kid")
 	}
 
+	// exp and nbf, when present, must be NumericDates a time can hold:
+	// Validate only looks at numbers, and turns one beyond int64 into a
+	// date in the distant past.
+	for _, name := range []string{"exp", "nbf"} {
+		if !claims.Has(name) {
+			continue
+		}
+		if n, ok := claims.Get(name).(float64); !ok || n < 0 || n >= 1<<62 {
+			log.Debug("malformed validity period when validating JWT", log.Fields{"claim": name})
+			return errors.New("invalid " + name)
+		}
+	}
+
 	// Validate verifies the signature and the exp and nbf claims.
 	err = parsedJWT.Validate(publicKey, jc.SigningMethodRS256)
 	if err != nil {
